@@ -5,7 +5,7 @@ from oracle_util import *  # noqa
 from protocol import from_real
 
 ID = "C18"
-LEAN_MODULE = ["SCoda.Props.C18", "SCoda.Props.Notes", "SCoda.Props.Gaps", "SCoda.Props.WrapTie", "SCoda.Props.ViewTie"]
+LEAN_MODULE = ["SCoda.Props.C18", "SCoda.Props.Notes", "SCoda.Props.Gaps", "SCoda.Props.WrapTie", "SCoda.Props.ViewTie", "SCoda.Props.AbsTie2"]
 LEVEL = "proof"
 CLAUSES = [
     ("pad: events untouched, duration = max(old, n)", ["SCoda.C18.pad_events", "SCoda.C18.pad_duration", "SCoda.C18.pad_ok"]),
@@ -26,6 +26,8 @@ CLAUSES = [
     ("TIE BY TRANSLATION, view level: RelativeSequence.pad, set_channel and scale (integer factor >= 1) as re-translated from the source on every run equal the models "
      "the clauses above are about (cutoff stores through an alias and stays tied by correspondence)",
      ["SCoda.ViewTie.pad_eq", "SCoda.ViewTie.setChannel_eq", "SCoda.ViewTie.scaleRel_eq"]),
+    ('TIE BY TRANSLATION, absolute view with object identity: the dict-heavy / aliasing methods of AbsoluteSequence are re-translated statement by statement on every run (Gen/AbsFns2.lean, tools/py2lean_abs2.py: Message objects live in a heap, a reference is a position tag, stores through any alias update the heap cell, dicts are insertion-ordered association lists, while loops carry proved fuel bounds) and proved equal to the hand models, for every heap and reference list with references into the heap and channels not None: cutoff = the model cutoff (the result references are a permutation of the input) for pairwise distinct objects — with the same note-off object twice in the list the code shortens both occurrences where the value model shortens one (replayed; excluded by Nodup)',
+     ["SCoda.AbsTie2.cutoff_eq", "SCoda.AbsTie2.cutoff_init", "SCoda.AbsTie2.pairings_eq"]),
 ]
 RULE = ("well-formed multi-channel sequences (<=8 notes, ticks<200) x n in {below, at, above duration} / (m, r<=m) / k in 1..8 / "
         "channel 0..15; non-trivial = at least one note and for cutoff a note longer than m")
